@@ -138,6 +138,26 @@ class C12(BtProp):
                             out.append(viol("traversal", "behaviour %d visited before its descendant %d" % (a, i)))
                 if yids and yids[-1] != spec[1]:
                     out.append(viol("traversal", "the root was not visited last"))
+            # "immediately after it ticked": in the merged sequence every own yield z<i>:<st> is followed at once by the
+            # runs of all ordinary visitors on i, which see exactly that status - before anything else is entered
+            Q = next((x[2:].split() for x in b["lines"] if x.startswith("Q ")), None)
+            if Q is not None and ordinary:
+                k = 0
+                while k < len(Q):
+                    if Q[k][0] == "z":
+                        i, st = Q[k][1:].split(":")
+                        want = ["v%d:%s:%s" % (j, i, st) for j in ordinary]
+                        got = Q[k + 1:k + 1 + len(want)]
+                        if got != want:
+                            out.append(viol("immediate", "behaviour %s came out of its tick with %s; expected the ordinary "
+                                            "visitors to run on it at once (%s) but next is %s" % (i, st, want, got)))
+                            break
+                        k += 1 + len(want)
+                    elif Q[k][0] == "v":
+                        out.append(viol("immediate", "visitor run %s not directly after that behaviour's tick" % Q[k]))
+                        break
+                    else:
+                        k += 1
             count += 1
             K = next((x for x in b["lines"] if x.startswith("K ")), None)
             if K is not None and int(K[2:]) != count:
